@@ -2046,7 +2046,8 @@ impl Parser {
                         Operator::Assign => {
                             return Err(self.else_error_at(assign.pos, "expect := found ="))
                         }
-                        _ => unreachable!(),
+                        // x += y.(type) and the like
+                        _ => return Err(self.else_error_at(assign.pos, "expect :=")),
                     }
             }
             _ => false,
